@@ -254,8 +254,10 @@ pub fn snap_list<E, S>(c: &caches::RawLRU<TKey, TVal, E, S>, out: &mut Ints) -> 
 /// linked node through the key stored in that node.  Nodes that are linked but not indexed are allowed
 /// (they leak).  Returns `code chain_len index_len`: 0 fine, 1 a walk met a freed block (dangling),
 /// 2 a walk did not terminate / sentinels damaged, 3 walks disagree, 4 a node linked twice or a sentinel
-/// linked, 5 an index entry whose node is not linked or freed, 6 an index key not stored in its node,
-/// 7 a node indexed twice.
+/// linked, 5 an index entry whose node is not linked or freed, 6 an index key that is not the key field of a
+/// linked node of this list, 7 a node indexed twice.  (After a panic a composite cache can hold one key in two
+/// lists; `HashMap::insert` of an equal key then keeps the old KeyRef, which points into the other, still linked
+/// node with the equal key: harmless, since a node without an index entry of its own is never freed.)
 pub fn weak_audit_list<E, S>(c: &caches::RawLRU<TKey, TVal, E, S>, limit: usize, out: &mut Ints) {
     let a = c.verif_audit_checked(limit, &|p| crate::alloc::is_tracked_live(p));
     let fwd_nodes: Vec<usize> = a.fwd.iter().map(|x| x.0).collect();
@@ -280,7 +282,7 @@ pub fn weak_audit_list<E, S>(c: &caches::RawLRU<TKey, TVal, E, S>, limit: usize,
         7
     } else if a.index.iter().any(|(_, n)| sorted.binary_search(n).is_err() || !crate::alloc::is_tracked_live(*n)) {
         5
-    } else if a.index.iter().any(|(kaddr, n)| a.fwd.iter().find(|x| x.0 == *n).map(|x| x.1 != *kaddr).unwrap_or(true)) {
+    } else if a.index.iter().any(|(kaddr, _)| !a.fwd.iter().any(|x| x.1 == *kaddr)) {
         6
     } else {
         0
